@@ -21,7 +21,8 @@ SCALARS = ['int', 'float', 'complex', 'np.float64', 'np.complex128', 'np.int64',
 
 
 def mk_scalar(rng, kind, nz=False):
-    v = rng.choice([2, -3, 1, 4]) if kind in ('int', 'np.int64') else rng.choice([0.5, -1.25, 1.5, 2.0, -0.75])
+    # (the neutral elements 1, 1.0, -1 are ordinary operands too: a shortcut taken for them must still return a fresh object)
+    v = rng.choice([2, -3, 1, 4, 1, -1]) if kind in ('int', 'np.int64') else rng.choice([0.5, -1.25, 1.5, 2.0, -0.75, 1.0, 1.0, -1.0])
     if kind == 'int':
         return int(v)
     if kind == 'bigint':
@@ -119,6 +120,10 @@ def obj(a):
     sk = a.get('sk')
     if sk in ('int', 'bigint'):
         return int(v)
+    if sk == 'nd0-int':
+        return np.array(int(v))
+    if sk == 'bool':
+        return bool(v)
     if sk == 'float':
         return float(v)
     if sk == 'complex':
@@ -159,6 +164,8 @@ def run_impl(case):
         return ('exc', 'result is %s, not UTPM' % type(z).__name__)
     if case['form'] != 'inplace' and l0 is not None and not np.array_equal(l0, l.data):
         return ('mutated', 'left operand modified')
+    if case['form'] != 'inplace' and z.data.size and any(isinstance(o, UTPM) and np.shares_memory(z.data, o.data) for o in (l, r)):
+        return ('mutated', 'the result of the binary expression shares its coefficient storage with an operand (an in-place update of one changes the other)')
     if r0 is not None and not np.array_equal(r0, r.data if isinstance(r, UTPM) else r):
         return ('mutated', 'right operand modified')
     return ('ok', np.array(z.data))
@@ -288,9 +295,21 @@ def gen_pow(rng, tier):
         case['r'] = {'k': 'S', 'sk': sk, 'v': rng.choice([2, 3]) if sk in ('int', 'np.int8', 'np.uint8', 'np.int16') else rng.choice([0.5, 1.5, 2.5])}
         if sk == 'bigint':
             case['r']['v'] = rng.choice([2 ** 64, 10 ** 30])         # a Python int beyond 64 bits
+        if rng.random() < 0.25:
+            # a complex exponent polynomial; the real base may then be negative (principal branch, as NumPy: (-2.)**(1+1j))
+            case['x'] = x = x + 1j * rand_coeffs(rng, x.shape, -1, 1)
+            if sk in ('int', 'float', 'np.float64') and rng.random() < 0.6:
+                case['r']['v'] = -case['r']['v']
     else:
         y = rand_coeffs(rng, (D, P) + shape, -1, 1)
+        if rng.random() < 0.25:
+            # a complex exponent polynomial over a real base polynomial (also with negative base points)
+            y = y + 1j * rand_coeffs(rng, y.shape, -1, 1)
+            if rng.random() < 0.5:
+                x[0] = -x[0]
         case['y'] = y
+    if form == 'scalar_exp' and rng.random() < 0.15 and case['r']['sk'] in ('int', 'np.int64') and case['r']['v'] >= 0:
+        case['r']['sk'] = rng.choice(['nd0-int', 'bool']) if case['r']['v'] <= 1 else 'nd0-int'      # 0-d integer array / bool as exponent
     return case
 
 
@@ -317,7 +336,7 @@ def run_pow(ctx, case):
         cplx = sk == 'complex'
         if cplx and not np.iscomplexobj(z):
             return 'dtype-pow-scalar_exp: x**complex returned dtype %s (imaginary part dropped)' % z.dtype
-        if sk in ('int', 'np.int64') and rv >= 0:
+        if sk in ('int', 'np.int64', 'nd0-int', 'bool') and rv >= 0:
             m = ctx.model.arrs({'op': 'ew1', 'fn': 'pownat', 'x': enc_arr(x), 'leaves': [], 'params': [], 'n': int(rv)})
         else:
             y0 = x[0] ** rv
@@ -326,14 +345,26 @@ def run_pow(ctx, case):
         m = m[0]
     elif form == 'scalar_base':
         # r**x = exp(log(r) * x)  (utpm.py:433-434)
-        lr = math.log(float(obj(case['r'])))         # the logarithm of the base in double precision, whatever its scalar type
+        cx = np.iscomplexobj(x)
+        import cmath
+        # the logarithm of the base in double precision, whatever its scalar type; complex (principal branch) for a complex exponent
+        lr = cmath.log(complex(float(obj(case['r'])))) if cx else math.log(float(obj(case['r'])))
         sx = x * lr
-        m = ctx.model.arrs({'op': 'ew1', 'fn': 'exp', 'x': enc_arr(sx), 'leaves': [enc_arr(np.exp(sx[0]))], 'params': []})[0]
+        m = ctx.model.arrs(dict({'op': 'ew1', 'fn': 'exp', 'x': enc_arr(sx, cx), 'leaves': [enc_arr(np.exp(sx[0]), cx)], 'params': []},
+                                **({'f': 'QI'} if cx else {})))[0]
+        if cx and not np.iscomplexobj(z):
+            return 'dtype-pow-scalar_base: r**x with complex x returned dtype %s' % z.dtype
     else:
         # x**y = exp(log(x) * y)  (utpm.py:425-426): compose the three model kernels
-        lg = ctx.model.arrs({'op': 'ew1', 'fn': 'log', 'x': enc_arr(x), 'leaves': [enc_arr(np.log(x[0]))], 'params': []})[0]
-        pr = ctx.model.arrs({'op': 'bin', 'fn': 'mul', 'kind': 'uu', 'x': enc_arr(lg), 'y': enc_arr(np.array(case['y']))})[0]
-        m = ctx.model.arrs({'op': 'ew1', 'fn': 'exp', 'x': enc_arr(pr), 'leaves': [enc_arr(np.exp(pr[0]))], 'params': []})[0]
+        yv = np.array(case['y'])
+        cx = np.iscomplexobj(yv)
+        fk = {'f': 'QI'} if cx else {}
+        xc = x.astype(complex) if cx else x
+        lg = ctx.model.arrs(dict({'op': 'ew1', 'fn': 'log', 'x': enc_arr(xc, cx), 'leaves': [enc_arr(np.log(xc[0]), cx)], 'params': []}, **fk))[0]
+        pr = ctx.model.arrs(dict({'op': 'bin', 'fn': 'mul', 'kind': 'uu', 'x': enc_arr(lg, cx), 'y': enc_arr(yv, cx)}, **fk))[0]
+        m = ctx.model.arrs(dict({'op': 'ew1', 'fn': 'exp', 'x': enc_arr(pr, cx), 'leaves': [enc_arr(np.exp(pr[0]), cx)], 'params': []}, **fk))[0]
+        if cx and not np.iscomplexobj(z):
+            return 'dtype-pow-poly_exp: x**y with complex y returned dtype %s' % z.dtype
     if not close(z, m, tol=1e-8):
         return 'mismatch-%s: differs from the power in R[t]/(t^D), max diff %s' % (tag, maxdiff(z, m))
     return None
@@ -470,6 +501,7 @@ def run(ctx):
     systematic_pow(ctx)
     systematic_const_dtypes(ctx)
     systematic_utp_class(ctx)
+    systematic_neutral(ctx)
     for i in range(n):
         case = gen_pow(ctx.rng, ctx.tier) if i % 6 == 5 else gen_case(ctx.rng, ctx.tier)
         ctx.evaluations += 1
@@ -525,6 +557,30 @@ def systematic_const_dtypes(ctx):
                     ctx.report(case, 'failure', res)
 
 
+def systematic_neutral(ctx):
+    """every operator with the neutral / absorbing Python scalars (1, 1.0, 0, 0.0, -1) on either side, binary and in-place"""
+    rng = ctx.rng
+    for opn in ('add', 'sub', 'mul', 'div'):
+        for sk, v in (('int', 1), ('float', 1.0), ('int', 0), ('float', 0.0), ('int', -1), ('np.float64', 1.0)):
+            for side in ('US', 'SU', 'inplace'):
+                if opn == 'div' and v == 0 and side != 'SU':
+                    continue
+                D, P = rng.randint(1, 3), rng.randint(1, 2)
+                x = rand_coeffs(rng, (D, P, 2), -2, 2)
+                x[0] = c01.gen_x0(rng, 'nz', (P, 2), False)
+                S_ = {'k': 'S', 'sk': sk, 'v': v}
+                U_ = {'k': 'U', 'v': x}
+                if side == 'SU':
+                    case = {'op': opn, 'form': 'bin', 'D': D, 'P': P, 'l': S_, 'r': U_}
+                else:
+                    case = {'op': opn, 'form': 'inplace' if side == 'inplace' else 'bin', 'D': D, 'P': P, 'l': U_, 'r': S_}
+                ctx.evaluations += 1
+                ctx.count('neutral-scalar')
+                res = run_case(ctx, case)
+                if res is not None:
+                    ctx.report(case, 'failure', res)
+
+
 def systematic_pow(ctx):
     """every non-negative Python-int exponent at base points 0, negative and positive, D >= 2"""
     for v in list(range(0, 5)) + [7, 15, 16, 17, 24]:
@@ -534,7 +590,7 @@ def systematic_pow(ctx):
         case['form'] = 'scalar_exp'
         case.pop('y', None)
         case['r'] = {'k': 'S', 'sk': 'int' if (v % 2 == 0 or v > 7) else 'np.int64', 'v': v}      # NumPy integer exponents too
-        x = np.array(case['x'])
+        x = np.array(np.real(np.array(case['x'])), dtype=float)
         flat = x[0].reshape(-1)
         flat[0] = 0.0
         if flat.size > 1:
